@@ -481,14 +481,16 @@ func run(c *core.Ctx) {
 		`<s{{/**/}}cript>{{$.S0}}</script>`, `<s{{if $.C0}}cript{{end}}>{{$.S0}}</script>`, `<s{{if $.C1}}cript{{end}}>{{$.S0}}</script>`, `<s{{/**/}}tyle>{{$.S0}}</style>`, `<scr{{/* c */}}ipt>{{$.S0}}</script>`,
 		`<s{{/**/}}cript src="{{$.S0}}"></script>`, `<i{{/**/}}frame src="{{$.S0}}"></iframe>`, `<i{{/**/}}frame srcdoc="{{$.S0}}"></iframe>`, `<b{{/**/}}ase href="{{$.S0}}">`, `<a{{/**/}}pplet code="{{$.S0}}">`, `<l{{/**/}}ink rel="stylesheet" href="{{$.S0}}">`,
 		`<e{{/**/}}mbed src="{{$.S0}}">`, `<o{{/**/}}bject data="{{$.S0}}"></object>`, `<a{{with $.S1}}rea{{end}} href="{{$.S0}}">`, `<p{{/**/}} onclick="{{$.S0}}">x</p>`, `<p on{{/**/}}click="{{$.S0}}">x</p>`, `<p st{{/**/}}yle="{{$.S0}}">x</p>`,
+		`<a href="{{$.S0}}{{if $.C0}}&#{{end}}58;alert(1)">x</a>`, `<a href="{{$.S0}}{{if $.C1}}{{else}}&#x{{end}}3a;alert(1)">x</a>`, `<form action="{{$.S0}}{{if $.C0}}&colo{{end}}n;alert(1)"></form>`, `<a href="{{$.S0}}{{range $.L0}}&#{{end}}58;alert(1)">x</a>`,
+		`<a href="{{$.S0}}{{if $.C0}}&Ta{{end}}b;:alert(1)">x</a>`, `<a href="{{$.S0}}&#{{/**/}}58;alert(1)">x</a>`, `<a href="{{$.S0}}{{with $.S1}}&#5{{end}}8;alert(1)">x</a>`,
 		`<iframe src{{/**/}}doc="{{$.S0}}"></iframe>`, `<s{{template "leaf" "cript"}}>{{$.S0}}</script>`, `{{if $.C0}}<s{{else}}<b{{end}}cript>{{$.S0}}</script>`, `<a h{{/**/}}ref="{{$.S0}}">x</a>`,
 	}
 	for i, text := range splitNames {
 		if !c.Mine(i) {
 			continue
 		}
-		for n := 0; n < 6; n++ {
-			hs, is := w1Data([]string{"zQ9zalert(1)", "javascript:alert(1)", "//evil.example/x.js"}[n%3], 0, 0, false)
+		for n := 0; n < 16; n++ {
+			hs, is := w1Data([]string{"zQ9zalert(1)", "javascript:alert(1)", "//evil.example/x.js", "javascript"}[n/2%4], 0, 0, false)
 			hs.S[0], hs.S[2] = hs.S[2], hs.S[0] // the whole string in S0
 			hs.C[0], is.C[0] = n%2 == 0, n%2 == 0
 			checkOne(c, helpersW1+text, hs, is, false)
